@@ -6,6 +6,7 @@
 //   3 from_chars / to_integer      string table x bases x {int8, uint8, int32, uint64}
 //   4 chrono calendar              sys_days <-> year_month_day, weekday, is_leap, ok(), year_month_day_last
 //   5 chrono durations             duration_cast / floor / ceil / round between period pairs, abs
+//   6 to_chars / from_chars / to_integer for the remaining signed types (short, long; long long text)
 #include "vf.hpp"
 #include "vf_contract.hpp"
 
@@ -520,8 +521,14 @@ inline constexpr auto tabTC32 = to_chars_table<int>();
 inline constexpr auto tabTC64 = to_chars_table<long long>();
 inline constexpr auto tabTCu64 = to_chars_table<unsigned long long>();
 #endif
-#if C13_GRP == 3
+#if C13_GRP == 3 || C13_GRP == 6
 inline constexpr auto tabFC = from_chars_table();
+#endif
+#if C13_GRP == 6
+// the remaining signed types (minimum / maximum of short and long in value and text form)
+inline constexpr auto tabTC16  = to_chars_table<short>();
+inline constexpr auto tabTCl   = to_chars_table<long>();
+inline constexpr auto tabTCu16 = to_chars_table<unsigned short>();
 #endif
 
 // =================================================================== chrono
@@ -793,6 +800,16 @@ std::vector<Entry> const& entries()
     EN("strings::to_integer<int8>", F_to_integer<signed char>, tabFC, ClsFC<signed char>),
     EN("strings::to_integer<int32>", F_to_integer<int>, tabFC, ClsFC<int>),
     EN("strings::to_integer<uint64>", F_to_integer<unsigned long long>, tabFC, ClsFC<unsigned long long>),
+#elif C13_GRP == 6
+    EN("to_chars<int16>", F_to_chars<short>, tabTC16, ClsTC<short>),
+    EN("to_chars<long>", F_to_chars<long>, tabTCl, ClsTC<long>),
+    EN("to_chars<uint16>", F_to_chars<unsigned short>, tabTCu16, ClsTC<unsigned short>),
+    EN("from_chars<int16>", F_from_chars<short>, tabFC, ClsFC<short>),
+    EN("from_chars<long>", F_from_chars<long>, tabFC, ClsFC<long>),
+    EN("from_chars<int64>", F_from_chars<long long>, tabFC, ClsFC<long long>),
+    EN("from_chars<uint16>", F_from_chars<unsigned short>, tabFC, ClsFC<unsigned short>),
+    EN("strings::to_integer<int16>", F_to_integer<short>, tabFC, ClsFC<short>),
+    EN("strings::to_integer<int64>", F_to_integer<long long>, tabFC, ClsFC<long long>),
 #elif C13_GRP == 4
     EN("chrono::year_month_day(sys_days)", F_civil_from_days, tabDays, ClsD),
     EN("chrono::weekday(sys_days)", F_weekday, tabDays, ClsD),
